@@ -19,7 +19,9 @@ EXTENDS SessionProp, TLC, Json
 CONSTANTS MaxReq,
           UDPEnabled,               \* server offers UDP
           HasRecord, HasPlay, HasPause,   \* handler subsets the application implements
-          Tracks                    \* track indexes of the stream / announced description
+          Tracks,                   \* track indexes of the stream / announced description
+          MethodSet,                \* methods explored (Methods for everything)
+          ShSet                     \* Session header variants explored
 
 Methods == {"OPTIONS", "DESCRIBE", "ANNOUNCE", "SETUP", "PLAY", "RECORD", "PAUSE",
             "TEARDOWN", "GET_PARAMETER", "SET_PARAMETER"}
@@ -96,6 +98,10 @@ Predict(m, sh, track, pr, mode) ==
          IF sh = "none" THEN NotImpl
          ELSE IF sh = "unknown" THEN Unknown ELSE InSession(m, track, pr, mode)
 
+AllSh == {"none", "right", "unknown"}
+MainMethods == {"OPTIONS", "ANNOUNCE", "SETUP", "PLAY", "RECORD", "PAUSE", "TEARDOWN"}
+NoUnknown == {"none", "right"}
+
 StatusOf(cls) == CASE cls = "ok" -> 200 [] cls = "e400" -> 400 [] cls = "e454" -> 454
                    [] cls = "e461" -> 461 [] OTHER -> 501
 
@@ -130,7 +136,7 @@ Request(m, sh, prm) ==
   /\ n' = n + 1
   /\ hist' = Append(hist, rec)
   /\ beh' = IF n' = MaxReq \/ pd.close
-            THEN ToJson([udp |-> UDPEnabled, rec |-> HasRecord, play |-> HasPlay, pause |-> HasPause,
+            THEN ToJson([ntracks |-> Cardinality(Tracks), udp |-> UDPEnabled, rec |-> HasRecord, play |-> HasPlay, pause |-> HasPause,
                          reqs |-> hist'])
             ELSE ""
 
@@ -143,7 +149,7 @@ Ended == /\ alive /\ st = "none" /\ state # "none" /\ tornDown
 Opened == /\ st # "none" /\ opened = closedN /\ SessOpen /\ UNCHANGED bvars
 
 Next ==
-  \/ \E m \in Methods, sh \in {"none", "right", "unknown"} : \E prm \in Params(m) :
+  \/ \E m \in MethodSet, sh \in ShSet : \E prm \in Params(m) :
         Request(m, sh, prm)
   \/ Ended
 Spec == Init /\ [][Next]_<<svars, bvars>>
@@ -151,7 +157,7 @@ Spec == Init /\ [][Next]_<<svars, bvars>>
 \* B => A: every request the model can issue next is answered in a way Level A accepts
 BImpliesA ==
   (alive /\ n < MaxReq /\ ~(st = "none" /\ state # "none")) =>
-    \A m \in Methods, sh \in {"none", "right", "unknown"} : \A prm \in Params(m) :
+    \A m \in MethodSet, sh \in ShSet : \A prm \in Params(m) :
       (sh = "right" => idKnown) =>
         LET pd == Predict(m, sh, prm[1], prm[2], prm[3])
             exp == IF pd.cls = "ok" /\ m \in MainPath THEN "ok" ELSE "any"
